@@ -163,16 +163,20 @@ theorem balanced_perMember {members : List Member} {tp : Dict Str (List Int)} {a
     have hbal := cycTake_balanced (sortBy tpLe atp).length [] [] (sortBy strLe (members.map (·.1))) 0
       (by simpa using hnd) (by simp) (by simp)
     simp only [List.append_nil, List.nil_append] at hbal
-    have hload : ∀ m ∈ members, load (m.1, assignmentOf asg m.1)
+    have hk : (keys (perMember asg members)).Nodup := by
+      have : keys (perMember asg members) = members.map (·.1) := by
+        simp [keys, perMember, List.map_map, Function.comp]
+      rw [this]; exact hn
+    have hload : ∀ m ∈ members, loadFor (perMember asg members) m.1
         = (cycTake (sortBy tpLe atp).length (sortBy strLe (members.map (·.1)))).count m.1 := by
-      intro m _
-      rw [← hcyc, ← loadOf_nest, ← hasg]; rfl
+      intro m hm
+      have hmem : (m.1, assignmentOf asg m.1) ∈ perMember asg members := List.mem_map.mpr ⟨m, hm, rfl⟩
+      unfold loadFor
+      rw [dget_of_mem_nodup hk hmem, ← hcyc, ← loadOf_nest, ← hasg]; rfl
     rw [List.all_eq_true]
-    intro a ha
+    intro ma hma
     rw [List.all_eq_true]
-    intro b hb
-    obtain ⟨ma, hma, rfl⟩ := List.mem_map.mp ha
-    obtain ⟨mb, hmb, rfl⟩ := List.mem_map.mp hb
+    intro mb hmb
     rw [hload ma hma, hload mb hmb, decide_eq_true_eq]
     exact hbal ma.1 ((mem_sortBy strLe).mpr (List.mem_map.mpr ⟨ma, hma, rfl⟩)) mb.1
       ((mem_sortBy strLe).mpr (List.mem_map.mpr ⟨mb, hmb, rfl⟩))
